@@ -6,6 +6,7 @@ import (
 	"time"
 
 	"github.com/jdillenkofer/pithos/internal/storage"
+	"github.com/jdillenkofer/pithos/internal/storage/metadatapart/metadatastore"
 )
 
 // Pure specification functions used by the contracts in zz_contracts_verif.go.
@@ -87,4 +88,40 @@ func specCopyConditionsFail(c storage.CopySourceConditions, etag string, lastMod
 		return true
 	}
 	return false
+}
+
+// ---- C11: metadata, tags and storage class of a copy (S3 directives) ----
+
+// specSameOpt: two optional strings carry the same value (both absent, or both present and equal).
+func specSameOpt(a *string, b *string) bool {
+	if a == nil || b == nil {
+		return a == nil && b == nil
+	}
+	return *a == *b
+}
+
+// specSameSystemMetadata: the five user-modifiable system metadata headers agree (Cache-Control, Content-Disposition,
+// Content-Encoding, Content-Language, Expires). The website redirect location and the user metadata map are judged
+// separately.
+func specSameSystemMetadata(a metadatastore.ObjectMetadata, b metadatastore.ObjectMetadata) bool {
+	return specSameOpt(a.CacheControl, b.CacheControl) && specSameOpt(a.ContentDisposition, b.ContentDisposition) &&
+		specSameOpt(a.ContentEncoding, b.ContentEncoding) && specSameOpt(a.ContentLanguage, b.ContentLanguage) &&
+		specSameOpt(a.Expires, b.Expires)
+}
+
+// specNoSystemMetadata: all five are absent.
+func specNoSystemMetadata(a metadatastore.ObjectMetadata) bool {
+	return a.CacheControl == nil && a.ContentDisposition == nil && a.ContentEncoding == nil && a.ContentLanguage == nil && a.Expires == nil
+}
+
+// specReplaceMetadata / specReplaceTags: the request carries the REPLACE directive.
+func specReplaceMetadata(opts *storage.CopyObjectOptions) bool { return opts != nil && opts.ReplaceMetadata }
+func specReplaceTags(opts *storage.CopyObjectOptions) bool     { return opts != nil && opts.ReplaceTags }
+
+// specRequestRedirect: the website redirect location supplied on the copy request itself (never the source's).
+func specRequestRedirect(opts *storage.CopyObjectOptions) *string {
+	if opts == nil || opts.Metadata == nil {
+		return nil
+	}
+	return opts.Metadata.WebsiteRedirectLocation
 }
